@@ -186,6 +186,12 @@ def run_impl(case):
                               object_names=[_oname(k) for k in case['onames']],
                               attribute_names=[_aname(k) for k in case['anames']], backend=case['backend'])
             bg, bo = case['base_gen'], case['base_objs']
+            if case.get('warm'):
+                # questions with other base sets put to the SAME context object first (results discarded)
+                from harness.c16c18_warm import warm_context
+                focus = [tuple(g for g in range(len(case['table'])) if all(case['table'][g][m] for m in [a]))
+                         for a in range(len(case['table'][0]))]
+                warm_context(K, case['table'], case['warm'], focus=focus)
             if case['named']:
                 res = K.get_minimal_generators([_aname(k) for k in case['intent']],
                                                None if bg is None else [_aname(k) for k in bg],
@@ -321,7 +327,7 @@ def stats(case):
                 'by': 'name' if case['named'] else 'index/%d' % case.get('call', 0),
                 'base_gen': 'none' if case['base_gen'] is None else
                         ('repeats' if len(set(case['base_gen'])) < len(case['base_gen']) else len(case['base_gen'])),
-                'base_objs': case.get('bo_kind', ''), 'intent': 'closed' if case.get('closed') else 'other'}
+                'base_objs': case.get('bo_kind', ''), 'context_warm_up': bool(case.get('warm')), 'intent': 'closed' if case.get('closed') else 'other'}
     if case['kind'] == 'mv':
         return {'kind': 'mv', 'mv_shape': '%dx%d' % (case['n'], len(case['cols'])),
                 'ps': 'numpy' if case['numpy'] else 'plain', 'mv_base': case.get('base_kind', ''),
@@ -342,6 +348,8 @@ def _formal(rng, t, intent, bg, bo, bo_kind, closed, named=None, backend=None, c
          'onames': list(range(h)), 'anames': list(range(w)), 'intent': list(intent),
          'base_gen': None if bg is None else list(bg), 'base_objs': None if bo is None else list(bo),
          'bo_kind': bo_kind, 'closed': closed, 'tkind': tkind}
+    if tkind != 'exhaustive' and rng.random() < 0.3:
+        c['warm'] = rng.randrange(1, 10 ** 6)
     if intent and tkind != 'exhaustive' and rng.random() < 0.12:
         c['intent'] = list(intent) + [rng.choice(list(intent))]     # an intent listed with a repeat
         intent = c['intent']
